@@ -212,6 +212,12 @@ def run(ctx):
         psp = {"p0": np.arange(rng.choice([5, 7])), "p1": np.arange(rng.choice([3, 4]))}
         for (ni, nt) in ((a, a + k), (a + k - 1, a + k + 2)):
             pairs.append(dict(name=pname, space=psp, init={"random": ni}, n_iter=nt))
+    # the no-repeat clause with candidate sub-sampling: replacement=False and sampling["random"] below the pool -- the row removed after
+    # each evaluation must be the evaluated position's, whichever subset the proposal was chosen from
+    for pname in ("BayesianOptimizer", "TreeStructuredParzenEstimators", "ForestOptimizer") * (1 if ctx.quick else 3):
+        psp = {"q0": np.arange(5), "q1": np.arange(rng.choice([4, 5]))}
+        pairs.append(dict(name=pname, space=psp, init={"random": 2}, n_iter=2 + rng.choice([10, 12]),
+                          cfg={"replacement": False, "sampling": {"random": rng.choice([5, 7])}}))
     for it in range(n_runs + len(pairs)):
         plan = pairs[it - n_runs] if it >= n_runs else None
         name = SMBO4[it % 4]
@@ -260,7 +266,7 @@ def run(ctx):
         seed = rng.randrange(10 ** 6)
         n_iter = init["random"] + (8 if ctx.quick else 12)
         if plan is not None:
-            name, space, init, n_iter, cfg, feas = plan["name"], plan["space"], plan["init"], plan["n_iter"], {}, None
+            name, space, init, n_iter, cfg, feas = plan["name"], plan["space"], plan["init"], plan["n_iter"], dict(plan.get("cfg") or {}), None
             names = list(space.keys())
             if name == "ForestOptimizer":
                 cfg["tree_para"] = {"n_estimators": 5}
